@@ -12,7 +12,7 @@ Extraction "model.ml"
   Z.div_eucl Z.add Z.mul Z.opp Z.abs
   timeline_entry reply_entry new_post new_actor kind_in actor_kinds post_kinds activity_kinds
   fetch_url fetch_unknown get parse_request no_crlf no_crlf_sp request_bytes classify_response
-  post_name post_string post_preview post_select_link post_media actor_name actor_string actor_preview actor_select_link actor_pfp actor_banner failure_name failure_string
+  post_name post_string post_preview post_select_link post_media actor_name actor_string actor_preview actor_select_link actor_pfp actor_banner failure_name failure_string activity_name activity_string activity_preview activity_kind_ok
   remote_requests coll_page load_page resolve_webfinger jrd_accept wf_uri query_escape split_at wf_scan
   update run_task settle settle_gated snapshot ui_init resize view last_frame last_shown
   config_fields render_with_links gem_render_with_links plain_render_with_links split_nl
